@@ -46,6 +46,8 @@ struct Opts {
     switch_freq: u64,
     early_switch_freq: u64,
     update_freq: u64,
+    /// product-alphabet option set: explored with the de-duplicated search for every num_tune
+    bfs_only: bool,
     growth: f64,
 }
 
@@ -542,7 +544,7 @@ pub fn run(tier: Tier, _replay: Option<String>) -> i32 {
     );
     report.assume("synthetic collectors (hook H1) stand for the per-draw statistics a trajectory would produce; Gaussian-consistent draws/gradients");
     report.assume("de-duplication is sound for the schedule counters because the schedule code reads no other state; the dual-averaging comparison is only done in the non-deduplicated mode");
-    let n_all: u64 = tier.pick(7, 10);
+    let n_all: u64 = tier.pick(7, 9);
     let n_dedup: u64 = tier.pick(14, 24);
     let mut opts = vec![];
     for lowrank in [false, true] {
@@ -567,8 +569,8 @@ pub fn run(tier: Tier, _replay: Option<String>) -> i32 {
                 for ew in [0.0, 0.3, 0.6] {
                     for ssw in [0.0, 0.15, 0.5, 1.0] {
                         for (sf, esf) in [(1, 1), (3, 2), (2, 3), (6, 3), (80, 10)] {
-                            for uf in [1, 3, 5] {
-                                for g in [1.0, 1.5, 2.0] {
+                            for uf in [1, 5] {
+                                for g in [1.0, 1.5] {
                                     v.push((ew, ssw, sf, esf, uf, g));
                                 }
                             }
@@ -589,7 +591,25 @@ pub fn run(tier: Tier, _replay: Option<String>) -> i32 {
                     early_switch_freq: esf,
                     update_freq: uf,
                     growth: g,
+                    bfs_only: false,
                 });
+            }
+        }
+        // the full product of small option alphabets, de-duplicated search only
+        let max_nt_product: u64 = tier.pick(10, 16);
+        for ew in [0.0, 0.3, 0.5, 0.6] {
+            for ssw in [0.0, 0.15, 0.5] {
+                for sf in [1u64, 2, 3, 6] {
+                    for esf in [1u64, 2, 3] {
+                        for uf in [1u64, 2, 5] {
+                            for g in [1.0, 1.5] {
+                                for nt in 1..=max_nt_product {
+                                    opts.push(Opts { lowrank, num_tune: nt, early_window: ew, step_size_window: ssw, switch_freq: sf, early_switch_freq: esf, update_freq: uf, growth: g, bfs_only: true });
+                                }
+                            }
+                        }
+                    }
+                }
             }
         }
     }
@@ -601,7 +621,7 @@ pub fn run(tier: Tier, _replay: Option<String>) -> i32 {
     report.bounds = json!({"all_words_up_to_num_tune": n_all, "dedup_search_up_to_num_tune": n_dedup, "option_sets": opts.len()});
     mc_core::par_for_each(&opts, |_, o| {
         let mut p = Partial::new();
-        if o.num_tune <= n_all {
+        if o.num_tune <= n_all && !o.bfs_only {
             // (i) every word, no de-duplication, with the step-size reference
             let mut seen: BTreeSet<(u64, u64, u64, u64, u64, bool)> = BTreeSet::new();
             for w in all_words(o.num_tune as usize + 2) {
